@@ -646,6 +646,37 @@ theorem solPath_realises {s : Sol} {p : Path} (h : solPath s = .path p) :
   unfold Spec.realises
   rw [← h1, ← h2]
 
+/-- **when `PathSolution::path` returns a path**: for a solution over graph edges with at least one
+edge, `path()` returns a path as soon as the data-plane segments of its combination pass `wire_valid`
+(`encodeOk`: per-segment and total hop-field limits, size) and the combination names at least one
+interface; the path then carries exactly the combination's segments and interface list. -/
+theorem solPath_of_encodable {g : List GEdge} {s : Sol} (hs : SolOk g s)
+    (hg : ∀ e ∈ g, EdgeOk e.seg.seg e.edge) (hne : s.edges ≠ [])
+    (henc : encodeOk ((s.edges.map pieceOf).map Spec.Piece.pseg) = true)
+    (hifs : (s.edges.map pieceOf).flatMap Spec.Piece.ifs ≠ []) :
+    ∃ p, solPath s = .path p ∧ p.segs = (s.edges.map pieceOf).map Spec.Piece.pseg ∧
+      p.ifs = (s.edges.map pieceOf).flatMap Spec.Piece.ifs := by
+  rcases edgeParts_ok s.edges MTU_INIT 0 (fun e he => hg e (hs.edges_mem e he)) (by have := hs.len_le; omega)
+    with ⟨⟨mtu, ifs, segs⟩, hr⟩
+  rcases edgeParts_spec _ _ _ _ _ _ hr with ⟨h1, h2, _⟩
+  rcases pathExpiry_ok segs with ⟨v, hv⟩
+  rw [← h1] at henc
+  rw [← h2] at hifs
+  have hview := viewOk_of_encodeOk henc
+  cases hh : ifs.head? with
+  | none => rw [List.head?_eq_none_iff] at hh; exact absurd hh hifs
+  | some f =>
+    cases hl : ifs.getLast? with
+    | none => rw [List.getLast?_eq_none_iff] at hl; exact absurd hl hifs
+    | some l =>
+      refine ⟨⟨f.1, l.1, segs, mtu, v, ifs⟩, ?_, h1, h2⟩
+      unfold solPath
+      have hne' : s.edges.isEmpty = false := by
+        cases hE : s.edges with
+        | nil => exact absurd hE hne
+        | cons a as => rfl
+      simp only [hne', Bool.false_eq_true, if_false, hr, hv, henc, hview, Bool.not_true, hh, hl]
+
 /-! ## 6. the interface list read off the hop fields -/
 
 theorem used_cons (p : Spec.Piece) (h : p.cut < p.len) :
